@@ -30,7 +30,7 @@ def clean(st):
 class Spec(hist.Spec):
     prop = PROP
 
-    def __init__(self, name, cls, sa, kwargs, urls, qurls, with_lru=True):
+    def __init__(self, name, cls, sa, kwargs, urls, qurls, with_lru=True, raw=None):
         self.name = name
         self.cls = cls
         self.sa = sa
@@ -44,9 +44,9 @@ class Spec(hist.Spec):
             v += 1
             self.ops.append(["set", u, v])  # same URL again, other value
         if with_lru:
-            for raw in RAW_STEMS:
+            for r in (raw if raw is not None else (RAW_STEMS if cls == "LRUTrie" else RAW_STEMS[:1])):
                 v += 1
-                self.ops.append(["set_lru_raw", raw, v])
+                self.ops.append(["set_lru_raw", r, v])
             for u in urls[:4]:
                 v += 1
                 self.ops.append(["set_lru_str", u, v])
@@ -68,6 +68,16 @@ class Spec(hist.Spec):
 
     def witness_fields(self):
         return {"cls": self.cls, "suffix_aware": self.sa, "kwargs": self.kwargs}
+
+    def narrow(self, query):
+        k = core.canon_json(query)
+        cache = self.__dict__.setdefault("_narrow", {})
+        if k not in cache:
+            q = [query[1]] if len(query) > 1 and isinstance(query[1], str) else []
+            sp = Spec("narrow", self.cls, self.sa, self.kwargs, [], q)
+            sp._kc = self._kc
+            cache[k] = sp
+        return cache[k]
 
     # --- reference keys
     def lru_key(self, url):
@@ -179,6 +189,8 @@ def make_spec(cls, sa, kwargs, kind, tier="quick"):
         store = SMALL[:8] if tier == "quick" else SMALL
         store = store + (VARIANTS[:3] if cls != "LRUTrie" else [])
         q = QUERY_URLS[::3] + VARIANTS if tier == "quick" else QUERY_URLS + VARIANTS
+        if cls == "LRUTrie" and tier == "quick":
+            return Spec(name, cls, sa, kwargs, SMALL[:6], q, with_lru=True, raw=RAW_STEMS[:2])
         return Spec(name, cls, sa, kwargs, store, q, with_lru=(cls == "LRUTrie"))
     store = SMALL + VARIANTS
     q = QUERY_URLS[::2] + VARIANTS
@@ -187,7 +199,7 @@ def make_spec(cls, sa, kwargs, kind, tier="quick"):
 
 def judge(w):
     q = w["query"]
-    spec = Spec("replay", w["cls"], w["suffix_aware"], w["kwargs"], [], [q[1]] if len(q) > 1 else [])
+    spec = Spec("replay", w["cls"], w["suffix_aware"], w["kwargs"], [], [q[1]] if len(q) > 1 and isinstance(q[1], str) else [])
     obj = spec.build_ops(w["ops"])
     _, f = spec.check(obj, spec.ref_ops(w["ops"]))
     qj = core.canon_json(q)
